@@ -22,7 +22,7 @@ META = {
     "SyncFIFO wrapper, stated on the ideal queue) hold for every depth, every data value and every history of simultaneous "
     "write/read/peek/clear attempts; the model is tied to the code by cycle-exact comparison of done bits, returned data, "
     "peek.ready, level, both pointers and the head register over depths 1..9 (thorough 1..17), several layouts, directed "
-    "wrap-around/full/empty/clear sequences, random regimes and (thorough) all histories up to length 4 of the smallest depths"
+    "wrap-around/full/empty/clear sequences, random regimes and (thorough) all histories up to length 3 (BasicFifo, depths 1-2; length 2 at depth 3) / 4 (FIFO, depths 1-3)"
     " Multi-caller scenarios: a wrapper owning the real component with two AdapterTrans on each of write/read/peek; per cycle each caller attempts independently, the model grants exclusive methods to the first attempting caller in the priority order probed from the real scheduler (c14_callers theorem: at most one caller executes and it sees the single-port outcome), the monitor accepts either winner and checks at-most-one executing caller per exclusive method and exactly-once in-order delivery over the union of all callers.",
     "level_note": "trusted: Lean kernel with axioms propext/Classical.choice/Quot.sound; Amaranth semantics, amaranth.lib.memory "
     "(transparent sync read port) and pysim; amaranth.lib.fifo.SyncFIFO is *modelled* as the ideal queue with level-based "
@@ -236,7 +236,7 @@ def gen_cases(ctx: Check, cls: str) -> list[Case]:
             cases.append(_mk(cls, depth, lay, [strip(c) for c in random_ops(rng, n, width, *reg)], "random"))
     if ctx.thorough:
         for depth in (1, 2, 3):
-            for L in range(1, 4 if cls == "basic" else 6):
+            for L in range(1, (4 if depth <= 2 else 3) if cls == "basic" else 5):
                 for seq in exhaustive_ops(L, (1, 2), with_pc=cls == "basic"):
                     # prefix: half-fill so that full and empty are both within reach
                     pre = [(3, 0, 0, 0)] * (depth // 2)
